@@ -154,7 +154,11 @@ func (g *gen) newIndex(t *gTable) (gIndex, bool) {
 	if len(cand) > 1 && g.rng.Intn(3) == 0 {
 		n = 2
 	}
-	return gIndex{Name: g.idxName(t), Cols: append([]string{}, cand[:n]...), Unique: g.rng.Intn(3) == 0}, true
+	ix := gIndex{Name: g.idxName(t), Cols: append([]string{}, cand[:n]...), Unique: g.rng.Intn(3) == 0}
+	if g.dialect == "mysql" && g.rng.Intn(4) == 0 {
+		ix.Using = g.pick([]string{"BTREE", "HASH"}) // only the MySQL grammar of sqlize's readers accepts USING
+	}
+	return ix, true
 }
 
 func (g *gen) newFk(s *gSchema, t *gTable) (gFk, bool) {
